@@ -6,6 +6,7 @@ import AfkakProofs.BrokerClient.MonC06
 import AfkakProofs.BrokerClient.Reent10
 import AfkakProofs.BrokerClient.Compose
 import AfkakProofs.BrokerClient.Term
+import AfkakProofs.BrokerClient.SyncFlat
 /-!
 # C10 — after a connection drop, unanswered requests are re-sent once, in order; reconnect, back-off, close
 Property theorems only; helper lemmas live in `AfkakProofs/BrokerClient/`.
@@ -546,6 +547,64 @@ example : ∃ (st : Afkak.ClientNet.St) (q : Afkak.ClientNet.Req),
     Afkak.ClientNet.reqGet st 0 = some q ∧ q.pending = true ∧ q.b = 5 :=
   ⟨{ reqs := [{ k := 0, b := 5, issued := 0, due := 1, owner := .srtc 0 }] }, _, rfl, rfl, rfl⟩
 
+/-- "Only on the next request": an idle client (no connection, no attempt, no timer, not closed — in any
+    reachable state) starts a connection attempt on no event other than `makeRequest`. -/
+theorem C10_idle_connects_only_on_make (cfg : Cfg) (host port : Nat) (evs : List Ev) (e : Ev)
+    (he : ∀ id ex, e ≠ .make id ex) :
+    let s := run cfg (St.init host port) evs
+    s.proto = none → s.connector = .none → s.closed = false → connects (step cfg s e).2 = [] := by
+  intro s hp hco hcl
+  have h : SInv s := sinv_run cfg (St.init host port) evs (sinv_init host port)
+  have hem : s.reqs = [] := h.idleEmpty hp hco hcl
+  cases e with
+  | make id ex => exact absurd rfl (he id ex)
+  | cancel id => simp [step, hem, connects]
+  | connOk => simp [step, hco, connects]
+  | connFail => simp [step, hco, connects]
+  | advance dt =>
+    simp only [step, hco]
+    split <;> simp [connects]
+  | bytesIn chunk => simp [step, hp, connects]
+  | lost => simp [step, hp, connects]
+  | close =>
+    simp only [step, hcl, hp, hco, hem, Bool.false_eq_true, if_false]
+    simp [connects]
+  | disconnect => simp [step, hp, connects]
+  | updateMetadata a b => simp [step, connects]
+  | writeFail b => simp [step, connects]
+
+/-- Endpoints that answer `connect()` SYNCHRONOUSLY (`syncMode`; the transitions `dial` / `makeS` of
+    `BrokerClientR.exec` are written out by hand because the outcome is delivered inside the call).  They are
+    the flat attempt immediately followed by the flat `connFail` / `connOk`, state and observations:
+    * a synchronous failure inside `tryConnect()` (after a drop, on the retry timer): failure count,
+      delay `policy (failures + 1)` and due time are exactly those of `C10_backoff`;
+    * a synchronous success inside `tryConnect()` when no callback is registered, on a table as every
+      reachable disconnected state has it (ascending serials, nothing marked sent): `_sendQueued` writes
+      exactly what `C10_resend_exact` says;
+    * `makeRequest` on an idle client whose endpoint fails synchronously: the flat `make` followed by
+      the flat `connFail` (first failure, `policy 1`).
+    (`_connectionLost` with such an endpoint — task `lost` — is the flat `lostStep` up to the attempt and
+    then `dial`; a synchronous success inside `makeRequest` — `makeS` — is `make` on the established
+    connection.  With callbacks registered only the safety statement `C10_reentrant` is proved.) -/
+theorem C10_sync_outcome_is_flat (cfg : Cfg) (n : Nat) (s : Afkak.BrokerClientR.StR) (hc : s.core.closed = false) :
+    (s.sync = .fail →
+      Afkak.BrokerClientR.exec cfg (n + 1) s .dial =
+        ({ s with core := (step cfg (tryConnect s.core).1 .connFail).1 },
+         Afkak.BrokerClientR.obs ((tryConnect s.core).2 ++ (step cfg (tryConnect s.core).1 .connFail).2))) ∧
+    (s.sync = .ok → s.hooks = [] → s.core.reqs.Pairwise (fun a b => a.serial < b.serial) →
+      (∀ r ∈ s.core.reqs, r.sent = false) → s.core.reqs.length + 3 ≤ n →
+      Afkak.BrokerClientR.exec cfg (n + 1) s .dial =
+        ({ s with core := (step cfg (tryConnect s.core).1 .connOk).1 },
+         Afkak.BrokerClientR.obs ((tryConnect s.core).2 ++ (step cfg (tryConnect s.core).1 .connOk).2))) ∧
+    (s.sync = .fail → s.core.proto = none → s.core.connector = .none →
+      ∀ id ex, s.core.reqs.any (fun r => r.id == id) = false →
+        (Afkak.BrokerClientR.exec cfg (n + 1) s (.makeS id ex none)).1.core = (step cfg (step cfg s.core (.make id ex)).1 .connFail).1 ∧
+        Afkak.BrokerClientR.plain (Afkak.BrokerClientR.exec cfg (n + 1) s (.makeS id ex none)).2
+          = (step cfg s.core (.make id ex)).2 ++ (step cfg (step cfg s.core (.make id ex)).1 .connFail).2) :=
+  ⟨fun hsy => Afkak.BrokerClientR.dial_fail_is_flat cfg n s hc hsy,
+   fun hsy hh hpw hun hn => Afkak.BrokerClientR.dial_ok_is_flat cfg n s hh hc hsy hpw hun hn,
+   fun hsy hp hco id ex hd => Afkak.BrokerClientR.makeS_fail_is_flat cfg n s id ex hc hp hco hd hsy⟩
+
 /-- C10 with RE-ENTRANT callbacks, unconditionally (formerly the open statement): for every
     configuration and every event list of the re-entrant model, from some amount of fuel on the
     stream monitor `r10` accepts the trace — whatever the callbacks do, with the endpoint that connects
@@ -590,6 +649,8 @@ C10_close
 C10_reentrant_partial
 C10_timeout_disconnect_resends
 C10_timeout_resends_any_interleaving
+C10_idle_connects_only_on_make
+C10_sync_outcome_is_flat
 C10_reentrant
 -/
 /- OPEN_STATEMENTS
